@@ -9,6 +9,7 @@ NODEF = "src/node/node.go"
 RPC = "src/node/node_rpc.go"
 PSF = "src/peers/peer_set.go"
 MEDF = "src/common/median.go"
+BSF = "src/hashgraph/badger_store.go"
 
 def M(id, prop, rule, *edits):
     return {"id": id, "prop": prop, "rule": rule, "edits": list(edits)}
@@ -142,6 +143,15 @@ MUTANTS = [
  M("c08-dispatch-undecoded", "C08", "C08.dispatch", ("src/net/net_transport.go", "\tdefault:\n\t\treturn fmt.Errorf(\"unknown rpc type %d\", rpcType)\n\t}\n\n\t// Dispatch the RPC", "\tdefault:\n\t\tn.logger.Debugf(\"unknown rpc type %d\", rpcType)\n\t}\n\n\t// Dispatch the RPC")),
  M("c08-promise-deferred-delete", "C08", "C08.respond", (CORE, "\t\t\tdelete(c.promises, r.InternalTransaction.HashString())\n", "\t\t\tdefer delete(c.promises, r.InternalTransaction.HashString())\n")),
  M("c08-parents-one-element", "C08", "C08.const", (HGF, "\t\tParents:              []string{selfParent, otherParent},", "\t\tParents:              append([]string{selfParent}, otherParent)[:1+len(otherParent)/64],")),
+ # ---- C16
+ M("c16-getblock-no-fallback", "C16", "C16.readthrough", (BSF, "\tres, err := s.inmemStore.GetBlock(rr)\n\tif err != nil {\n\t\tres, err = s.dbGetBlock(rr)\n\t}", "\tres, err := s.inmemStore.GetBlock(rr)\n\tif err != nil && s.maintenanceMode {\n\t\tres, err = s.dbGetBlock(rr)\n\t}")),
+ M("c16-participant-events-cache-only", "C16", "C16.readthrough", (BSF, "\tres, err := s.inmemStore.ParticipantEvents(participant, skip)\n\tif err != nil {\n\t\tres, err = s.dbParticipantEvents(participant, skip)\n\t}\n\treturn res, err", "\tres, err := s.inmemStore.ParticipantEvents(participant, skip)\n\tif err != nil {\n\t\t_, err = s.dbParticipantEvents(participant, skip)\n\t}\n\treturn res, err")),
+ M("c16-setblock-skip-unchanged", "C16", "C16.writethrough", (BSF, "\tif err := s.inmemStore.SetBlock(block); err != nil {\n\t\treturn err\n\t}\n", "\tprev, _ := s.inmemStore.GetBlock(block.Index())\n\tif err := s.inmemStore.SetBlock(block); err != nil {\n\t\treturn err\n\t}\n\tif prev != nil && prev.Hex() == block.Hex() {\n\t\treturn nil\n\t}\n")),
+ M("c16-setround-error-dropped", "C16", "C16.writethrough", (BSF, "\treturn s.dbSetRound(r, round)", "\ts.dbSetRound(r, round)\n\treturn nil")),
+ M("c16-getblock-framekey", "C16", "C16.keys", (BSF, "\tvar blockBytes []byte\n\tkey := blockKey(index)", "\tvar blockBytes []byte\n\tkey := frameKey(index)")),
+ M("c16-key-unpadded", "C16", "C16.keys", (BSF, "return []byte(fmt.Sprintf(\"%s_%09d\", topoPrefix, index))", "return []byte(fmt.Sprintf(\"%s_%d\", topoPrefix, index))")),
+ M("c16-key-narrow-pad", "C16", "C16.keys", (BSF, "return []byte(fmt.Sprintf(\"%s__event_%09d\", participant, index))", "return []byte(fmt.Sprintf(\"%s__event_%04d\", participant, index))")),
+ M("c16-event-plain-unmarshal", "C16", "C16.codec", (BSF, "\tevent := new(Event)\n\tif err := event.UnmarshalDB(eventBytes); err != nil {\n\t\treturn nil, err\n\t}\n\n\treturn event, nil", "\tevent := new(Event)\n\tif err := json.Unmarshal(eventBytes, event); err != nil {\n\t\treturn nil, err\n\t}\n\n\treturn event, nil"), (BSF, "import (\n\t\"fmt\"\n", "import (\n\t\"encoding/json\"\n\t\"fmt\"\n")),
 ]
 
 BENIGN = [
@@ -178,4 +188,7 @@ BENIGN = [
  B("c08-benign-guards-split", "C08", ("src/crypto/keys/signature.go", "\tif pub == nil || pub.X == nil || pub.Y == nil || r == nil || s == nil {\n\t\treturn false\n\t}\n", "\tif pub == nil || r == nil || s == nil {\n\t\treturn false\n\t}\n\tif pub.X == nil || pub.Y == nil {\n\t\treturn false\n\t}\n")),
  B("c08-benign-limit-reject", "C08", (RPC, "\t\tif limit < 0 {\n\t\t\tlimit = 0\n\t\t}\n", "\t\tif !(limit >= 0) {\n\t\t\tlimit = 0\n\t\t}\n")),
  B("c08-benign-hex-prefix-check", "C08", ("src/common/hex.go", "\tif len(hexString) < 2 {", "\tif !(len(hexString) >= 2) {")),
+
+ B("c16-benign-wider-pad", "C16", (BSF, "return []byte(fmt.Sprintf(\"%s_%09d\", roundPrefix, index))", "return []byte(fmt.Sprintf(\"%s_%012d\", roundPrefix, index))")),
+ B("c16-benign-early-maintenance", "C16", (BSF, "\tif err := s.inmemStore.SetFrame(frame); err != nil {\n\t\treturn err\n\t}\n\n\tif s.maintenanceMode {\n\t\treturn nil\n\t}\n\treturn s.dbSetFrame(frame)", "\tif err := s.inmemStore.SetFrame(frame); err != nil {\n\t\treturn err\n\t}\n\n\tif !s.maintenanceMode {\n\t\tif err := s.dbSetFrame(frame); err != nil {\n\t\t\treturn err\n\t\t}\n\t}\n\treturn nil")),
 ]
